@@ -134,7 +134,7 @@ theorem keys_removeNsKid (p : Nat) : ∀ (ks : List Tree), ((declsOfKids ks).map
   | [], _ => by simp [removeNsKid, declsOfKids]
   | k :: rest, hnd => by
     by_cases hc : (k.value.category == Category.namespace) = true
-    · obtain ⟨q, n, hv⟩ := (category_namespace_iff _).1 hc
+    · obtain ⟨q, n, hv⟩ := (category_namespace_iff_ex _).1 hc
       simp only [declsOfKids, hv, List.map_cons, List.nodup_cons] at hnd
       simp only [removeNsKid, hv]
       by_cases hq : q = p
@@ -147,10 +147,10 @@ theorem keys_removeNsKid (p : Nat) : ∀ (ks : List Tree), ((declsOfKids ks).map
     · have : declsOfKids (removeNsKid p (k :: rest)) = [] := by
         unfold removeNsKid
         split
-        · rename_i q n h; exact absurd ((category_namespace_iff _).2 ⟨q, n, h⟩) hc
+        · rename_i q n h; exact absurd ((category_namespace_iff_ex _).2 ⟨q, n, h⟩) hc
         · unfold declsOfKids
           split
-          · rename_i q n h; exact absurd ((category_namespace_iff _).2 ⟨q, n, h⟩) hc
+          · rename_i q n h; exact absurd ((category_namespace_iff_ex _).2 ⟨q, n, h⟩) hc
           · rfl
       simp [this]
 
